@@ -82,7 +82,7 @@ pub open spec fn inst_only_if(m: InstantiateMsg) -> bool {
     &&& (m.size_increment.v as int) % pow10(m.price_precision.v as int) == 0
 }
 pub open spec fn inst_stored(m: InstantiateMsg, i: ContractInfoV3) -> bool {
-    &&& i.name@ == m.name@ && i.bind_name@ == ""@ && i.base_denom@ == m.base_denom@
+    &&& i.name@ == m.name@ && i.base_denom@ == m.base_denom@
     &&& strs_eq(i.convertible_base_denoms@, m.convertible_base_denoms@)
     &&& strs_eq(i.supported_quote_denoms@, m.supported_quote_denoms@)
     &&& addrs_are(i.approvers@, m.approvers@) && addrs_are(i.executors@, m.executors@)
